@@ -11,11 +11,11 @@ PATTERNS = [[1, 0, 1, 1, 0, 0, 1, 0], [0, 1, 0, 0, 1, 1, 0, 1], [1, 1, 1, 1], [0
 def plan(tier, seed):
     specs = []
     if tier == 'quick':
-        depth, nrand, nsh = 2, 2400, 12
+        depth, nrand, nsh = 2, 9600, 14
         for sh in range(2):
             specs.append({'part': 'shapes', 'depth': depth, 'mod': 2, 'rem': sh, 'patterns': 2})
     else:
-        depth, nrand, nsh = 3, 64000, 16
+        depth, nrand, nsh = 3, 240000, 16
         for sh in range(16):
             specs.append({'part': 'shapes', 'depth': depth, 'mod': 16, 'rem': sh, 'patterns': 2})
     for sh in range(nsh):
